@@ -258,3 +258,92 @@ Proof.
   - intros H. injection H as <-. intros cl Hin. vm_compute in Hin. vm_compute. tauto.
   - destruct (is_one _); intros H; injection H as <-; intros cl Hin; vm_compute in Hin; vm_compute; tauto.
 Qed.
+
+Lemma keys_rel' (c : jv) (cl : cname) {B} (K : list jv -> res B) : class_entry_ok c cl = true ->
+  bind (get_class_dict_dyn c cl) (fun t => bind (dyn_iter t) K) = bind (class_keys c cl) (fun k => K (map JStr k)).
+Proof.
+  intros H. pose proof (keys_rel c cl H) as E.
+  destruct (get_class_dict_dyn c cl) as [d|]; destruct (class_keys c cl) as [k|]; cbn [bind rmap] in *;
+    try discriminate E; try reflexivity.
+  - rewrite E. reflexivity.
+  - rewrite E. reflexivity.
+  - injection E as ->. reflexivity.
+Qed.
+
+(** the slice-dimension test (lines 294-297) *)
+Lemma slice_block {A} (sd : jv) (K : res A) :
+  bind (if negb (dyn_is_none sd)
+        then bind (dyn_int sd) (fun z => if negb (andb (Z.leb (Z.of_nat 0) z) (Z.ltb z (Z.of_nat 3)))
+                                         then Err EInvalidExt else Ok (Next tt))
+        else Ok (Next tt))
+       (fun c7 : ctl A unit => match c7 with Ret rv => Ok rv | Next _ => K end)
+  = bind (check_slice_dim sd) (fun _ => K).
+Proof.
+  change (Z.of_nat 0) with 0%Z. change (Z.of_nat 3) with 3%Z.
+  destruct sd; cbn [dyn_is_none negb check_slice_dim as_int dyn_int dyn_as_int bind]; try reflexivity.
+  - destruct b; reflexivity.
+  - destruct ((0 <=? z)%Z && (z <? 3)%Z); reflexivity.
+Qed.
+
+Theorem check_valid_dyn_eq (c : jv) : class_entries_ok c = true ->
+  check_valid_dyn np_shape req_keys c classifications = check_valid c.
+Proof.
+  intros Hok. unfold check_valid_dyn, check_valid.
+  unfold version_dyn, K_version. change dyn_getitem with getitem. rewrite bind_ret.
+  destruct (getitem c _) as [ver|] eqn:Hver; [|reflexivity]. cbn [bind].
+  destruct (req_keys ver) as [req|]; [|reflexivity]. cbn [bind].
+  assert (Hc : exists o, c = JObj o) by (destruct c; try discriminate Hver; eexists; reflexivity).
+  destruct Hc as [o Hc].
+  assert (Hit : dyn_iter c = Ok (map JStr (content_keys c))) by (subst c; cbn [dyn_iter content_keys]; rewrite map_map; reflexivity).
+  rewrite Hit. cbn [bind]. rewrite subset_eq. clear Hit Hver.
+  destruct (subsetb req (content_keys c)); [|reflexivity]. cbn [negb].
+  unfold affine_dyn, K_affine. change dyn_getitem with getitem.
+  destruct (getitem c _) as [a|]; [|reflexivity]. cbn [bind].
+  destruct (np_shape a) as [ash|]; [|reflexivity]. cbn [bind]. rewrite nats_eqb_eq'.
+  destruct (nats_eqb ash _); [|reflexivity]. cbn [negb].
+  unfold slice_dim_dyn, K_slice_dim. change dyn_getitem with getitem. rewrite bind_ret.
+  destruct (getitem c _) as [sd|]; [|reflexivity]. cbn [bind]. cbv zeta.
+  rewrite slice_block.
+  destruct (check_slice_dim sd) as [[]|]; [|reflexivity]. cbn [bind].
+  rewrite shape_dyn_eq. destruct (shape_of c) as [sh|]; [|reflexivity]. cbn [bind].
+  destruct (negb _); [reflexivity|].
+  rewrite get_valid_classes_dyn_eq. destruct (get_valid_classes c) as [vc|] eqn:Hvc; [|reflexivity]. cbn [bind]. cbv zeta.
+  pose proof (valid_sub c vc Hvc) as Hsub.
+  assert (Hent : forall cl, In cl vc -> class_entry_ok c cl = true).
+  { intros cl Hin. unfold class_entries_ok in Hok. rewrite forallb_forall in Hok. apply Hok, Hsub, Hin. }
+  (* first loop *)
+  rewrite (py_for_forM _ _ (check_class c)).
+  2:{ intros [base sub] _. unfold check_class. cbn [fst snd]. rewrite !dyn_contains_eq.
+      destruct (py_contains c base) as [hb|]; [|reflexivity]. cbn [bind].
+      destruct hb; [|reflexivity]. cbn [negb]. change dyn_getitem with getitem.
+      destruct (getitem c base) as [b|] eqn:Hb; [|reflexivity]. cbn [bind]. rewrite dyn_contains_eq.
+      destruct (py_contains b sub) as [hs|]; [|reflexivity]. cbn [bind].
+      destruct hs; [|reflexivity]. cbn [negb].
+      unfold get_class_dict_dyn. change dyn_getitem with getitem. cbv iota beta. rewrite Hb. cbn [bind]. rewrite bind_ret.
+      destruct (getitem b sub) as [cm|]; [|reflexivity]. cbn [bind]. cbv zeta.
+      rewrite get_multiplicity_dyn_eq.
+      destruct (get_multiplicity c (base, sub)) as [m|]; [|reflexivity]. cbn [bind]. cbv zeta.
+      change (Z.of_nat 0) with 0%Z. change (Z.of_nat 1) with 1%Z. change dyn_len with py_len.
+      destruct (m =? 0)%Z eqn:Em.
+      - apply Z.eqb_eq in Em. subst m. destruct (py_len cm) as [n|]; [|reflexivity]. cbn [bind].
+        destruct (Nat.eqb n 0); reflexivity.
+      - cbn [bind]. destruct (1 <? m)%Z; [|reflexivity].
+        destruct cm; try reflexivity. cbn [dyn_items bind].
+        rewrite (check_vals_loop l m); [|intros [k v]; reflexivity].
+        destruct (check_vals (map snd l) m) as [[]|]; reflexivity. }
+  destruct (forM_ (check_class c) vc) as [[]|]; [|reflexivity]. cbn [bind].
+  (* second loop *)
+  unfold check_unique.
+  rewrite (py_for_forM _ _ (fun cl => uniq_inner c cl vc)).
+  2:{ intros cl Hcl.
+      rewrite (uniq_inner_loop c cl vc).
+      - destruct (uniq_inner c cl vc) as [[]|]; reflexivity.
+      - intros o' Ho. change (py_pair_eqb str_eqb str_eqb cl o') with (cname_eqb cl o').
+        destruct (cname_eqb cl o'); [reflexivity|].
+        rewrite (keys_rel' c cl _ (Hent cl Hcl)).
+        destruct (class_keys c cl) as [k1|]; [|reflexivity]. cbn [bind].
+        rewrite (keys_rel' c o' _ (Hent o' Ho)).
+        destruct (class_keys c o') as [k2|]; [|reflexivity]. cbn [bind]. cbv zeta.
+        rewrite inter_eq. destruct (intersects k1 k2); reflexivity. }
+  destruct (forM_ _ vc) as [[]|]; reflexivity.
+Qed.
